@@ -140,6 +140,7 @@ package core
 
 //@ func (*Spec).Step returns stride, err
 //@   safety C07
+//@   canon C09
 //@   requires s != nil && st != nil && wfSpec(s)
 //@   modifies[C06,C12;profile=pure] nothing
 //@   modifies[;profile=any] st.Bs
@@ -174,6 +175,7 @@ package core
 
 //@ func (*Spec).Walk returns walked, err
 //@   safety C07
+//@   canon C09
 //@   calls breakpoint as sig:core.Breakpoint
 //@   requires s != nil && st != nil && wfSpec(s)
 //@   requires c != nil ==> c.Limit >= 0
